@@ -19,7 +19,7 @@ RULE = ("Hypothesis-generated histories (1-30 ops) on a pool of 1-4 maps; addres
         "followed by a successful implicit placement on the same map, and >=1 explicit placement "
         "below the highest range already placed in that map. Distinct = distinct canonical JSON.")
 BUDGET = {"quick": (16, 1500), "thorough": (16, 40000)}
-ESSENTIAL = ["bulk_fill_over_256", "huge_address_space", "name_reused_after_refusal", "fail_then_implicit_ok", "explicit_before_existing", "touch_end", "dense_ratio_gt1",
+ESSENTIAL = ["placed_flush_with_end_of_map", "bulk_fill_over_256", "huge_address_space", "name_reused_after_refusal", "fail_then_implicit_ok", "explicit_before_existing", "touch_end", "dense_ratio_gt1",
              "frozen_add_refused", "window_ok", "grey_zone"]
 ASSUMPTIONS = [
     "resource/window names are unique counters, so a namespace conflict is never the reason for a refusal (C18 covers names)",
@@ -50,6 +50,7 @@ def _addr():
         (1, st.tuples(st.sampled_from(["start", "end"]), st.integers(0, 7), st.sampled_from([-8, -4, -1, 0, 0, 1, 4])).map(list)),
         (1, st.tuples(st.just("slot"), st.integers(0, 9)).map(list)),
         (1, st.tuples(st.just("top"), st.integers(0, 300)).map(list)),
+        (2, st.tuples(st.just("overhang"), st.integers(0, 7)).map(list)),    # ends 0..7 units beyond the end of the map
         (1, st.tuples(st.just("fracplus"), st.integers(1, 15), st.integers(1, 300)).map(list)),
         (1, st.tuples(st.just("bad"), st.sampled_from(["neg", "str", "float", "huge"])).map(list)),
     )
@@ -162,6 +163,8 @@ def _resolve_addr(a, mm, unit):
         return (a[1] << mm.aw) // 16, False
     if kind == "top":
         return max(0, (1 << mm.aw) - a[1]), False
+    if kind == "overhang":
+        return max(0, (1 << mm.aw) - unit + a[1]), False
     if kind == "fracplus":
         return ((a[1] << mm.aw) // 16 + a[2]) % (1 << mm.aw), False
     if kind == "bad":
@@ -270,6 +273,8 @@ def check(spec, stats):
         if ov:
             raise Violation("C02/overlap", f"{where}: returned {start:#x}..{end:#x} overlaps "
                             f"{[(o[3], o[4]) for o in ov]}")
+        if end == (1 << mm.aw):
+            stats.label("placed_flush_with_end_of_map")
         if mm.items and explicit is not None and start < max(it[3] for it in mm.items):
             stats.label("explicit_before_existing")
         if any(it[4] == start or it[3] == end for it in mm.items):
